@@ -13,6 +13,8 @@ def _spy(base):
         """Thin subclass logging create/save/abort with the recording's id; delegates."""
         def __init__(self, *a, **k):
             self.spy_log = []
+            self.spy_save_times = []
+            self.slow_save_ms = 0
             self.fail_save = False
             base.__init__(self, *a, **k)
 
@@ -22,7 +24,11 @@ def _spy(base):
             return r
 
         def save_recording(self, recording):
+            import time
             self.spy_log.append(('save', recording.id))
+            self.spy_save_times.append(time.time())
+            if self.slow_save_ms:
+                time.sleep(self.slow_save_ms / 1000.0)
             if self.fail_save:
                 raise IOError('injected storage failure on save')
             return base.save_recording(self, recording)
